@@ -141,4 +141,14 @@ let job_sem (job : Sx.t) : string =
           (string_of_n m.Ast.m_el) (string_of_n m.Ast.m_ec)
       | Sem.RunStuck c -> Printf.sprintf "(stuck %s)" (string_of_n c)
       | Sem.RunNoFuel -> "(nofuel)") (Sx.args (Sx.field job "inss")) in
-  String.concat " " results
+  Printf.sprintf "(wt %s) %s" (if Wt.wt_program p then "1" else "0") (String.concat " " results)
+
+(* `sizes` jobs: bit sizes of main's parameter types and return type, from the model *)
+let job_sizes (job : Sx.t) : string =
+  let p = program (Stdlib.List.hd (Sx.args (Sx.field job "ast"))) in
+  match Ast.find_fn p p.Ast.p_main with
+  | None -> "(no-main)"
+  | Some d ->
+    Printf.sprintf "(params %s) (ret %s)"
+      (join (fun (_, t) -> string_of_n (Sem.sizeof p t)) d.Ast.fn_params)
+      (string_of_n (Sem.sizeof p d.Ast.fn_ret))
